@@ -1,6 +1,307 @@
-"""E4 - provenance / taint helpers over the interpreter's normalised value texts."""
+"""E4 - provenance / taint helpers over the interpreter's normalised value texts.
+
+Everything here works on *values* (the interpreter's rendered terms), never on source text:
+  * run_roles        interpret a function with its parameters bound by POSITION to role names chosen by the rule, and locally
+                     constructed objects named after their class - local / parameter names of the source do not reach the texts
+  * norm_term        spelling-independent form of a byte term (single constant octets are constants, adjacent constants merge)
+  * split_items / concat_parts / split_args   structure of a rendered term
+  * int_equiv        a rendered integer expression equals a reference function on sample points (checker-side folding)
+  * BoolFn           truth-table view of a rendered condition (De Morgan, operand order, != vs not == do not matter)
+  * entropy_call / leaks / strip_calls         entropy classifier and "escapes other than through an encrypting call"
+"""
+import ast
+import itertools
 import re
 
+from .interp import Interp, Scenario, Sym, ListV, Obj, render
+from .loader import AnalysisError, dotted
+
+noinline = lambda f: False  # noqa: E731
+
+
+# ------------------------------------------------------------------------------------------------ role binding
+def run_roles(prog, fi, roles, vararg=None, kwarg=None, args=None, **sc):
+    """Interpret `fi` with its positional parameters named by `roles` (receiver first for methods).
+
+    roles[i] becomes the symbol of the i-th positional parameter whatever it is called in the source; `args` maps a ROLE to
+    a Val (scenario facts about a parameter); `vararg` is a list of role names for the elements of *args; `kwarg` the role of
+    **kwargs.  Returns the final states.  Objects constructed locally are named <Class> / <Class#k> (canonical_objs)."""
+    params = list(fi.params)
+    if len(params) < len(roles):
+        raise AnalysisError('%s: signature changed (%d positional parameters, %d expected)' % (fi.qualname, len(params), len(roles)))
+    node = fi.node
+    decs = [dotted(d) for d in node.decorator_list]
+    is_method = fi.cls is not None and 'staticmethod' not in decs
+    sc.setdefault('inline', noinline)
+    sc.setdefault('canonical_objs', True)
+    scen = Scenario(**sc)
+    overrides = dict(args or {})
+    call_args = {}
+    self_val = None
+    rl = list(roles)
+    if is_method and params:
+        params.pop(0)
+        first = rl.pop(0) if rl else 'self'
+        if 'classmethod' not in decs:
+            self_val = overrides.get(first) or Sym(first, cls=scen.self_cls or fi.cls, nonnull=True)
+    for name, role in zip(params, rl):
+        call_args[name] = overrides.get(role) or Sym(role)
+    if node.args.vararg is not None and vararg is not None:
+        call_args['*'] = ListV([overrides.get(r) or Sym(r) for r in vararg], 'tuple')
+    if node.args.kwarg is not None and kwarg is not None:
+        call_args['**'] = Sym(kwarg)
+    return Interp(prog, scen).run(fi, self_val=self_val, args=call_args)
+
+
+def objects(state):
+    """{canonical object name: Obj} for the objects constructed on this path."""
+    return {v.name: v for v in state.env.values() if isinstance(v, Obj)}
+
+
+def obj_of_class(state, text, *class_names):
+    """Is `text` the name of a locally constructed object whose class (or a base) is one of class_names?"""
+    o = objects(state).get(text)
+    if o is None or o.cls is None:
+        return False
+    have = {c.name for c in o.cls.mro()}
+    return any(n in have for n in class_names)
+
+
+def expand_objs(state, text):
+    """Replace names of locally constructed objects by their constructor text (for value objects such as MPI(x))."""
+    objs = objects(state)
+    for _ in range(3):
+        new = re.sub(r'<[A-Za-z_][A-Za-z0-9_]*(?:#\d+)?>', lambda m: objs[m.group(0)].text if m.group(0) in objs else m.group(0), text)
+        if new == text:
+            break
+        text = new
+    return text
+
+
+# ------------------------------------------------------------------------------------------------ term structure
+def norm_term(text):
+    """BYTE(<int literal>) is the constant octet; adjacent constants are one constant."""
+    if text is None:
+        return None
+    t = re.sub(r'\bBYTE\((\d+)\)', lambda m: 'C(%02x)' % int(m.group(1)) if int(m.group(1)) < 256 else m.group(0), text)
+    while True:
+        new = re.sub(r'\bC\(([0-9a-f]*)\) C\(([0-9a-f]*)\)', r'C(\1\2)', t)
+        if new == t:
+            return t
+        t = new
+
+
+def _split_top(text, sep):
+    out, d, cur, q = [], 0, '', None
+    i = 0
+    while i < len(text):
+        ch = text[i]
+        if q:
+            cur += ch
+            if ch == '\\' and i + 1 < len(text):
+                cur += text[i + 1]
+                i += 1
+            elif ch == q:
+                q = None
+        elif ch in '\'"':
+            q = ch
+            cur += ch
+        elif ch in '([{':
+            d += 1
+            cur += ch
+        elif ch in ')]}':
+            d -= 1
+            cur += ch
+        elif d == 0 and text.startswith(sep, i):
+            out.append(cur)
+            cur = ''
+            i += len(sep) - 1
+        else:
+            cur += ch
+        i += 1
+    out.append(cur)
+    return out
+
+
+def split_items(text):
+    """Top-level items of a rendered byte term ('INT(1;a) b C(00)' -> ['INT(1;a)', 'b', 'C(00)'])."""
+    return [x for x in _split_top(norm_term(text or ''), ' ') if x]
+
+
+def split_args(text):
+    """Top-level arguments of 'f(a, g(b, c))' -> ('f', ['a', 'g(b, c)']) ; None when text is not a call as a whole."""
+    text = (text or '').strip()
+    if not text.endswith(')'):
+        return None
+    d = 0
+    for i in range(len(text) - 1, -1, -1):          # the parenthesis that matches the final one
+        ch = text[i]
+        if ch in ')]}':
+            d += 1
+        elif ch in '([{':
+            d -= 1
+            if d == 0:
+                if ch != '(' or i == 0:
+                    return None
+                return text[:i], [a.strip() for a in _split_top(text[i + 1:-1], ', ') if a.strip()]
+    return None
+
+
+def strip_parens(t):
+    t = (t or '').strip()
+    while t.startswith('(') and t.endswith(')') and _balanced(t[1:-1]):
+        t = t[1:-1].strip()
+    return t
+
+
+def concat_parts(text):
+    """Operands of a concatenation however it was spelled: '(a + b)' (opaque values), 'a b' (byte items) or 'join([a, b])'."""
+    t = strip_parens(norm_term(text or ''))
+    parts = _split_top(t, ' + ')
+    if len(parts) > 1:
+        out = []
+        for p in parts:
+            out.extend(concat_parts(p))
+        return out
+    return split_items(t) if ' ' in t and len(split_items(t)) > 1 else [t]
+
+
+def int_equiv(text, reference, samples):
+    """Does the rendered integer expression `text` equal reference(**values) on every combination of sample points?
+
+    samples: {sub-term text: (placeholder name, [values])}.  Folding is done by the checker's own evaluator (sa/s2kshape.fold) on
+    the parsed expression; no repository code runs.  Returns True / False, or None when the expression is not closed over the
+    given sub-terms (something else is mixed in)."""
+    from .s2kshape import fold, _NoFold
+    t = text or ''
+    names = []
+    for sub, (ph, vals) in sorted(samples.items(), key=lambda kv: -len(kv[0])):
+        t = t.replace(sub, ph)
+        names.append((ph, vals))
+    try:
+        node = ast.parse(t.strip(), mode='eval').body
+    except SyntaxError:
+        return None
+    node = _IntCalls().visit(node)
+    try:
+        for combo in itertools.product(*[v for _, v in names]):
+            env = dict(zip([n for n, _ in names], combo))
+            if fold(node, env) != reference(**env):
+                return False
+    except (_NoFold, ZeroDivisionError, TypeError, ValueError):
+        return None
+    return True
+
+
+class _IntCalls(ast.NodeTransformer):
+    """int(x) of an integer expression is the expression."""
+    def visit_Call(self, node):
+        self.generic_visit(node)
+        if isinstance(node.func, ast.Name) and node.func.id == 'int' and len(node.args) == 1 and not node.keywords:
+            return node.args[0]
+        return node
+
+
+# ------------------------------------------------------------------------------------------------ conditions as boolean functions
+class BoolFn(object):
+    """Truth-table view of a rendered condition text (as produced by the interpreter's cond_text / EACH filters).
+
+    Atoms: equality of two terms (orientation and ==/!= normalised), `is` tests, isinstance(x, T) per class T, anything else by
+    its text.  `implies(atom)` / `implied_by(atoms)` are decided over all assignments of the atoms that occur."""
+    def __init__(self, text):
+        self.text = text
+        src = re.sub(r'\$(\d+)(?:\.(\d+))?', lambda m: '_B%s%s' % (m.group(1), ('_' + m.group(2)) if m.group(2) else ''), text)
+        try:
+            self.tree = ast.parse(src.strip(), mode='eval').body
+        except SyntaxError:
+            raise AnalysisError('condition is not a boolean expression the checker can read: %s' % text[:120])
+        self.atoms = []
+        self.form = self._build(self.tree)
+
+    @staticmethod
+    def eq(a, b):
+        return ('eq', frozenset([BoolFn._canon(a), BoolFn._canon(b)]))
+
+    @staticmethod
+    def isinst(x, t):
+        return ('isinstance', BoolFn._canon(x), t)
+
+    @staticmethod
+    def _canon(t):
+        t = re.sub(r'\$(\d+)(?:\.(\d+))?', lambda m: '_B%s%s' % (m.group(1), ('_' + m.group(2)) if m.group(2) else ''), t)
+        try:
+            return ast.unparse(ast.parse(t.strip(), mode='eval').body)
+        except SyntaxError:
+            return t
+
+    def _atom(self, a):
+        if a not in self.atoms:
+            self.atoms.append(a)
+        return ('atom', a)
+
+    def _build(self, n):
+        if isinstance(n, ast.BoolOp):
+            return ('and' if isinstance(n.op, ast.And) else 'or', [self._build(v) for v in n.values])
+        if isinstance(n, ast.UnaryOp) and isinstance(n.op, ast.Not):
+            return ('not', self._build(n.operand))
+        if isinstance(n, ast.Constant) and isinstance(n.value, bool):
+            return ('const', n.value)
+        if isinstance(n, ast.Compare) and len(n.ops) == 1:
+            l, r = ast.unparse(n.left), ast.unparse(n.comparators[0])
+            op = n.ops[0]
+            if isinstance(op, (ast.Eq, ast.NotEq)):
+                a = self._atom(('eq', frozenset([l, r])))
+                return a if isinstance(op, ast.Eq) else ('not', a)
+            if isinstance(op, (ast.Is, ast.IsNot)):
+                a = self._atom(('is', frozenset([l, r])))
+                return a if isinstance(op, ast.Is) else ('not', a)
+            if isinstance(op, (ast.In, ast.NotIn)):
+                a = self._atom(('in', l, r))
+                return a if isinstance(op, ast.In) else ('not', a)
+        if isinstance(n, ast.Call) and isinstance(n.func, ast.Name) and n.func.id == 'isinstance' and len(n.args) == 2 and not n.keywords:
+            x = ast.unparse(n.args[0])
+            ts = n.args[1].elts if isinstance(n.args[1], ast.Tuple) else [n.args[1]]
+            parts = [self._atom(('isinstance', x, ast.unparse(t).split('.')[-1])) for t in ts]
+            return parts[0] if len(parts) == 1 else ('or', parts)
+        if isinstance(n, ast.Call) and isinstance(n.func, ast.Name) and n.func.id == 'bool' and len(n.args) == 1 and not n.keywords:
+            return self._build(n.args[0])
+        return self._atom(('expr', ast.unparse(n)))
+
+    def _ev(self, f, asg):
+        k = f[0]
+        if k == 'const':
+            return f[1]
+        if k == 'atom':
+            return asg[f[1]]
+        if k == 'not':
+            return not self._ev(f[1], asg)
+        vals = [self._ev(x, asg) for x in f[1]]
+        return all(vals) if k == 'and' else any(vals)
+
+    def _assignments(self, extra=()):
+        atoms = list(self.atoms) + [a for a in extra if a not in self.atoms]
+        if len(atoms) > 12:
+            raise AnalysisError('condition with %d atoms: %s' % (len(atoms), self.text[:120]))
+        for combo in itertools.product((False, True), repeat=len(atoms)):
+            yield dict(zip(atoms, combo))
+
+    def implies(self, atom):
+        """Whenever the condition holds, `atom` holds."""
+        return all(asg[atom] for asg in self._assignments([atom]) if self._ev(self.form, asg))
+
+    def holds_when(self, atoms):
+        """The condition can hold when all `atoms` hold (it does not exclude the intended element)."""
+        return any(self._ev(self.form, asg) for asg in self._assignments(atoms) if all(asg[a] for a in atoms))
+
+    def depends_only_on(self, atoms):
+        """The condition is the conjunction of `atoms` and nothing else decides it."""
+        for asg in self._assignments(atoms):
+            if self._ev(self.form, asg) != all(asg[a] for a in atoms):
+                return False
+        return True
+
+
+# ------------------------------------------------------------------------------------------------ entropy sources
 ENTROPY_PATTERNS = [
     r'^os\.urandom\((?P<n>.+)\)$',
     r'^(?P<alg>.+)\.gen_iv\(\)$',
@@ -48,7 +349,7 @@ def strip_calls(text, allowed):
     while changed:
         changed = False
         for name in allowed:
-            for m in re.finditer(r'(?<![A-Za-z0-9_])((?:[A-Za-z_][A-Za-z0-9_\[\]\'"]*\.)*%s)\(' % re.escape(name), out):
+            for m in re.finditer(r'(?<![A-Za-z0-9_])((?:[A-Za-z_<][A-Za-z0-9_\[\]\'"<>#]*\.)*%s)\(' % re.escape(name), out):
                 start = m.start()
                 j = m.end()
                 depth = 1
@@ -67,27 +368,33 @@ def strip_calls(text, allowed):
     return out
 
 
-def leaks(state, name, allowed_calls, ignore_targets=()):
+def leaks(state, name, allowed_calls, ignore_targets=(), sanitizers=None):
     """Places where `name` escapes on this path other than through an allowed (encrypting) call:
-       attribute stores, |= , return value, yields, and calls that are not in `allowed_calls`."""
+       attribute stores, |= , return value, yields, and calls that are not in `allowed_calls`.
+
+       `allowed_calls`: callees the value may be handed to.  `sanitizers` (default: allowed_calls): callees whose RESULT no
+       longer exposes the value (encryption, key wrap) - a copy such as bytes(key) is allowed as a call but its result still is
+       the key."""
+    if sanitizers is None:
+        sanitizers = allowed_calls
     out = []
     for path, val, line, _ in state.stores:
         if path in ignore_targets:
             continue
-        if mentions(strip_calls(val, allowed_calls), name):
+        if mentions(strip_calls(val, sanitizers), name):
             out.append(('store', '%s = %s' % (path, val), line))
     for ev in state.events:
-        if ev[0] == 'ior' and (mentions(ev[1], name) or mentions(strip_calls(ev[2], allowed_calls), name)):
+        if ev[0] == 'ior' and (mentions(ev[1], name) or mentions(strip_calls(ev[2], sanitizers), name)):
             out.append(('ior', '%s |= %s' % (ev[1], ev[2]), ev[3]))
-        if ev[0] == 'return' and mentions(strip_calls(ev[1], allowed_calls), name):
+        if ev[0] == 'return' and mentions(strip_calls(ev[1], sanitizers), name):
             out.append(('return', 'return %s' % ev[1], ev[2]))
-        if ev[0] == 'yield' and mentions(strip_calls(ev[1], allowed_calls), name):
+        if ev[0] == 'yield' and mentions(strip_calls(ev[1], sanitizers), name):
             out.append(('yield', 'yield %s' % ev[1], ev[2]))
     for ft, args, kw, line, node in state.calls:
         base = ft.split('.')[-1]
         if base in allowed_calls or ft in allowed_calls:
             continue
         allargs = list(args) + list(kw.values())
-        if any(mentions(strip_calls(a, allowed_calls), name) for a in allargs):
+        if any(mentions(strip_calls(a, sanitizers), name) for a in allargs):
             out.append(('call', '%s(%s)' % (ft, ', '.join(allargs)), line))
     return out
